@@ -626,8 +626,12 @@ func runStream(work, prop string) {
 		streamStopRace(e)
 		streamWriterAtCut(e)
 		lifeOpenThenGone(e)
+		connStreamCuts(e)
 	}
 	streamMultiReader(e)
+	if prop == "C09" {
+		streamEmptyAndBursts(e)
+	}
 	e.Res.Rule = "end-to-end stream runs over a chunking byte pipe: 1-4 streams per connection interleaved with unary calls and pings; the handler pushes 0-3 messages before reading (first server write races with stream establishment); numbered, tagged, self-checking messages of 4..70004 bytes; every stream's two directions compared message by message; then a reader blocked on each end and (a) client Close of one stream with siblings kept working, (b) connection loss; poll-mode server over a real unix socket; (C10) readers about to block racing with Close / connection loss, 12 streams a round; the frames both readers received are replayed through the model's routing; non-trivial = distinct (pushes, chunk mode, streams, close mode, message count)"
 	names := writeCases(work, "From Coq Require Import List. Import ListNotations. From RPC Require Import RunStream. From RPC.Stream Require Import Model.", "scase", cases, 60)
 	e.Res.ModelCases = len(cases)
@@ -942,5 +946,115 @@ func streamWriterAtCut(e *Env) {
 		case <-time.After(3 * time.Second):
 		}
 		e.count("writer-at-cut", fmt.Sprintf("wac-%d", k))
+	}
+}
+
+// BurstSvc: numbered echo with a prefix, for messages of any length (the empty one included), and bursts.
+type BurstSvc struct{}
+
+// Num answers every message it reads with "<n>:" + the message, n counting what it has read.
+func (b *BurstSvc) Num(h *hStream) error {
+	for n := 0; ; n++ {
+		var m []byte
+		if err := h.s.ReadMessage(nil, &m); err != nil {
+			return nil
+		}
+		out := append([]byte(fmt.Sprintf("%d:", n)), m...)
+		h.s.WriteMessage(&out)
+	}
+}
+
+// Flood reads a count and pushes that many numbered messages back to back, reading on meanwhile.
+func (b *BurstSvc) Flood(h *hStream) error {
+	var m []byte
+	if err := h.s.ReadMessage(nil, &m); err != nil || len(m) < 4 {
+		return nil
+	}
+	n := int(binary.BigEndian.Uint32(m))
+	go func() {
+		for {
+			var x []byte
+			if err := h.s.ReadMessage(nil, &x); err != nil {
+				return
+			}
+		}
+	}()
+	for i := 0; i < n; i++ {
+		out := make([]byte, 4)
+		binary.BigEndian.PutUint32(out, uint32(i))
+		if err := h.s.WriteMessage(&out); err != nil {
+			return nil
+		}
+	}
+	return nil
+}
+
+// streamEmptyAndBursts: messages of length zero are messages; long bursts in both directions at once
+// arrive complete and in order.
+func streamEmptyAndBursts(e *Env) {
+	pid := e.Res.Property
+	for k := 0; k < 4; k++ {
+		pipelining, direct, cliDirect := k&1 == 1, k&2 == 2, k == 3
+		desc := map[string]interface{}{"scenario": "empty stream messages; bursts both ways", "server_pipelining": pipelining, "server_directIO": direct, "client_directIO": cliDirect, "seed": e.Seed}
+		e.inflight(desc)
+		c2s, s2c := newChunkPipe(func() int { return 1 << 20 }), newChunkPipe(func() int { return 1 << 20 })
+		cliRW := &duplex{r: s2c, w: c2s}
+		srvRW := &duplex{r: c2s, w: s2c}
+		srv := rpc.NewServer()
+		srv.SetLogLevel(rpc.OffLogLevel)
+		srv.SetPipelining(pipelining)
+		srv.SetDirectIO(direct)
+		srv.RegisterName("Bu", &BurstSvc{})
+		go srv.ServeCodec(rpc.NewServerCodec(&rpc.BYTESCodec{}, nil, socket.NewMessages(srvRW, false), direct, 0))
+		conn := rpc.NewConnWithCodec(rpc.NewClientCodec(&rpc.BYTESCodec{}, nil, socket.NewMessages(cliRW, false), 0))
+		if cliDirect {
+			conn.SetDirectIO(true)
+		}
+		// empty messages among others
+		if st, err := conn.NewStream("Bu.Num"); err == nil {
+			msgs := []string{"a", "", "bb", "", "", "ccc", ""}
+			for _, m := range msgs {
+				b := []byte(m)
+				st.WriteMessage(&b)
+			}
+			for i, m := range msgs {
+				b, err, ok := readWithTimeout(st, 3*time.Second)
+				want := fmt.Sprintf("%d:%s", i, m)
+				if !ok || err != nil || string(b) != want {
+					e.fail(pid+"-message-lost", fmt.Sprintf("the client wrote %q (empty messages included); the handler's numbered echo %d came back as %q (err=%v, arrived=%v), want %q", msgs, i, b, err, ok, want), desc)
+					break
+				}
+			}
+			st.Close()
+		}
+		// bursts in both directions at once
+		n := 20000
+		if e.thorough() {
+			n = 100000
+		}
+		if st, err := conn.NewStream("Bu.Flood"); err == nil {
+			hdr := make([]byte, 4)
+			binary.BigEndian.PutUint32(hdr, uint32(n))
+			st.WriteMessage(&hdr)
+			go func() {
+				for i := 0; i < n/4; i++ {
+					x := []byte{byte(i)}
+					if st.WriteMessage(&x) != nil {
+						return
+					}
+				}
+			}()
+			for i := 0; i < n; i++ {
+				b, err, ok := readWithTimeout(st, 5*time.Second)
+				if !ok || err != nil || len(b) != 4 || int(binary.BigEndian.Uint32(b)) != i {
+					e.fail(pid+"-sequence", fmt.Sprintf("the handler pushed %d numbered messages back to back while the client was writing too: message %d arrived as %x (err=%v, arrived=%v)", n, i, b, err, ok), desc)
+					break
+				}
+			}
+			st.Close()
+		}
+		conn.Close()
+		cliRW.Close()
+		e.count("empty-and-bursts", fmt.Sprintf("eb-%d", k))
 	}
 }
